@@ -143,7 +143,8 @@ def check(ctx):
                 s = sites.get(k)
                 d = s.reducer_arg("duration") if s else None
                 txt = ast.unparse(d) if d is not None else ""
-                ok = "2 * cell.connection.dt" in txt
+                want_src = "cell.connection.delayedby + cell.connection.dt if delayed else 2 * cell.connection.dt" if k == "trace_pre_slow" else "2 * cell.connection.dt"
+                ok = d is not None and nf.equal(terms.Builder(P, rc, {}, inline_depth=0).t(d), specs.spec_term(want_src))
                 ctx.ob("C08.a", f"{cname} monitor '{k}' keeps two steps of history", ok, txt, P.loc(rc, s.call) if s else "")
 
         # ---------------- (b) pairing
@@ -272,17 +273,7 @@ def check(ctx):
         ctx.ob("C08.d", f"MSTDPET monitor '{name}': {trig if ok else name}-triggered eligibility = other side's trace x own spikes, reshaped by side", ok, f"subattrs {subs}", P.loc(m.methods['register_cell'], s.call))
         tcz = s.reducer_arg("time_constant", 1)
         ctx.ob("C08.d", f"MSTDPET monitor '{name}' decays with tc_eligibility", tcz is not None and dotted(tcz) == "state.tc_eligibility", "", P.loc(m.methods['register_cell'], s.call))
-    for cname in ("MSTDP", "MSTDPET"):
-        f = P.cls(cname).methods["forward"]
-        loop = T.forward_loop(f)
-        ss = [st for st in ast.walk(loop) if isinstance(st, ast.Assign) and isinstance(st.targets[0], ast.Name) and st.targets[0].id == "scaledsignal"]
-        ok = len(ss) == 1 and ast.unparse(ss[0].value).startswith("(signal * scale).abs()")
-        ctx.ob("C08.d", f"{cname}.forward: per-sample contributions are scaled by |signal*scale|", ok, "", f.where)
-        sc = [x for x in ast.walk(loop) if isinstance(x, ast.Call) and dotted(x.func) == "abs" and ast.unparse(x.args[0]) == "signal * scale"]
-        ctx.ob("C08.d", f"{cname}.forward: scalar reward enters as |signal*scale|", len(sc) == 2, "", f.where)
-        pn = {st.targets[0].id: ast.unparse(st.value) for st in ast.walk(loop) if isinstance(st, ast.Assign) and isinstance(st.targets[0], ast.Name) and st.targets[0].id in ("signal_pos", "signal_neg")}
-        ok = pn.get("signal_pos", "").startswith("torch.argwhere(signal >= 0)") and pn.get("signal_neg", "").startswith("torch.argwhere(signal < 0)")
-        ctx.ob("C08.d", f"{cname}.forward: samples are partitioned by signal >= 0 / signal < 0", ok, f"{pn}", f.where)
+    # (the scaling by |signal*scale| and the partition by the reward's sign are decided by the decision tree of clause h)
     ctx.assume("spike tensors are {0,1}-valued; batch reductions behave as documented")
     # ---------------- (g) the trace kernels behind the trace monitors (shared with C07.a)
     ctx.import_clauses("C07", {"C07.a"}, "C08.g", minimum=8)
